@@ -195,11 +195,9 @@ func (r *RowCache) rowsByModels(models []model.Model, useClientIndexes bool) (ma
 			return nil, err
 		}
 		if uuid := field.(string); uuid != "" {
-			if _, ok := results[uuid]; !ok {
-				if row := r.rowByUUID(uuid); row != nil {
-					results[uuid] = row
-					continue
-				}
+			if row := r.rowByUUID(uuid); row != nil {
+				results[uuid] = row
+				continue
 			}
 		}
 
